@@ -134,3 +134,96 @@ func TestC12Stars(t *testing.T) {
 		}
 	}
 }
+
+// forkCase: a trunk of `anc` blocks, a lighter branch of `light` and a heavier
+// one of `heavy` blocks on top of it, in a network whose v2 heights are (allow,
+// require). Two nodes (lighter dials heavier) or a line of three with a fresh
+// node in the middle, which both others dial.
+func forkCase(allow, require, anc, light, heavy int, line3 bool) C12Case {
+	tc := kit.TreeCase{Net: kit.NetSpec{Maturity: 1, Allow: allow, ReqOff: require - allow, CutOff: 2}}
+	for i := 0; i < anc; i++ {
+		tc.Blocks = append(tc.Blocks, kit.BlockSpec{Dt: 1, Miner: i % 4, OnBad: true})
+	}
+	run := func(n, miner, dt int) []kit.BlockSpec {
+		var out []kit.BlockSpec
+		for i := 0; i < n; i++ {
+			out = append(out, kit.BlockSpec{Dt: dt, Miner: miner})
+		}
+		return out
+	}
+	l := appendRun(&tc, anc-1, run(light, 1, 2))
+	h := appendRun(&tc, anc-1, run(heavy, 2, 1))
+	c := C12Case{Tree: tc, Outline: true, V1Converges: true}
+	if !line3 {
+		c.Nodes = []C12Node{{Tip: 2*l + 1}, {Tip: 2*h + 1}}
+		c.Edges = []C12Edge{{From: 0, To: 1}}
+		return c
+	}
+	c.Nodes = []C12Node{{Tip: 2*l + 1}, {Tip: -1}, {Tip: 2*h + 1}}
+	c.Edges = []C12Edge{{From: 0, To: 1}, {From: 2, To: 1, DelayMS: 20}}
+	return c
+}
+
+type forkShape struct {
+	name                              string
+	allow, require, anc, light, heavy int
+	line3                             bool
+}
+
+func forkShapes() []forkShape {
+	var out []forkShape
+	// common ancestor below the require height (60), both branches crossing it
+	for _, below := range []int{50, 5} {
+		for _, light := range []int{20, 100, 120} {
+			for _, heavy := range []int{150, 230} {
+				out = append(out, forkShape{fmt.Sprintf("ancestor=require-%d", below), 2, 60, 60 - below, light, heavy, false})
+				if heavy == 150 {
+					out = append(out, forkShape{fmt.Sprintf("ancestor=require-%d", below), 2, 60, 60 - below, light, heavy, true})
+				}
+			}
+		}
+	}
+	// mirrored: ancestor above the require height (everything pre-validated)
+	for _, light := range []int{20, 120} {
+		for _, heavy := range []int{150, 230} {
+			out = append(out, forkShape{"ancestor=require+6", 2, 4, 10, light, heavy, false})
+		}
+	}
+	out = append(out, forkShape{"ancestor=require+6", 2, 4, 10, 120, 150, true})
+	// and entirely below the allow height (v1 blocks only)
+	for _, light := range []int{20, 120} {
+		out = append(out, forkShape{"below-allow", 1000, 1010, 10, light, 150, false})
+	}
+	out = append(out, forkShape{"below-allow", 1000, 1010, 10, 120, 150, true})
+	return out
+}
+
+const forksRule = "enumerated long forks: two nodes (the lighter dials the heavier) or a line of three with a fresh node in the middle; common ancestor 50 or 5 blocks below the require height (60) with a lighter branch of 20 / 100 / 120 and a heavier one of 150 / 230 blocks (both crossing the require height, the heavier - and for 100/120 the lighter - longer than one 100-block request, so the first request of the heavier branch arrives through AddBlocks and is only stored, the rest arrives pre-validated on top of it); mirrored with the ancestor above the require height (everything pre-validated) and entirely below the allow height (v1 blocks only). Same oracle as TestC12; the branches differ by more than one block, so convergence and the stall window are asserted for v1 tips too."
+
+// TestC12Forks runs the enumerated long-fork geometries (round robin over shards).
+func TestC12Forks(t *testing.T) {
+	if os.Getenv("VERIF_REPLAY") != "" {
+		c12Prop.Main(t)
+		return
+	}
+	shard, _ := strconv.Atoi(os.Getenv("VERIF_SHARD"))
+	shards, _ := strconv.Atoi(os.Getenv("VERIF_SHARDS"))
+	if shards < 1 {
+		shards, shard = 1, 0
+	}
+	d := kit.NewDirect(t, "C12", forksRule, c12Prop.Assumptions...)
+	defer d.Done()
+	for i, sh := range forkShapes() {
+		if i%shards != shard {
+			continue
+		}
+		c := forkCase(sh.allow, sh.require, sh.anc, sh.light, sh.heavy, sh.line3)
+		cs := &kit.CaseStats{}
+		err := c12Prop.SafeRun(c, cs)
+		cs.Classf("fork:%s,light=%d,heavy=%d,line3=%v", sh.name, sh.light, sh.heavy, sh.line3)
+		if err != nil {
+			err = fmt.Errorf("long fork (%s, lighter branch %d, heavier %d blocks, line of three=%v): %w", sh.name, sh.light, sh.heavy, sh.line3, err)
+		}
+		d.Case(c, cs, err)
+	}
+}
